@@ -59,7 +59,7 @@
 (*   hashset   (hashset-contains? (hashset x) x)                           *)
 (*   send      through a channel to another thread and back; same paths    *)
 (*   collect   (#%gc-collect) while x is the only reference; same paths    *)
-(*   drop      forget x, collect, allocate                                 *)
+(*   drop      forget x, then allocate 20000 boxes                         *)
 (*   equal     (equal? x y) both orders and (equal? x x) = bisimilarity    *)
 (*   hashfind  bisimilar x, y: (hash-contains? (hash x 1) y) = #true       *)
 (* and renders the Scheme text of every step.  "Terminates" is observed by *)
@@ -267,6 +267,39 @@ EqRun(g, st) == IF EqDone(st) THEN st ELSE EqRun2(g, st, EqStep(g, st))
 EqResult(g, x, y) == EqRun(g, EqInit(x, y)).res = "T"
 
 -----------------------------------------------------------------------------
+(* MACHINE EqAsIs: the comparison as Steel's RecursiveEqualityHandler does it *)
+(* today (rvals/cycles.rs:1899-2400), kept next to Eq as a NAMED DEFECTIVE    *)
+(* variant.  It is not an oracle: it predicts, per pair, whether the known    *)
+(* defects are in play (tag field asis = ok | wrong | hang), so that a        *)
+(* failure is attributed to a known finding only where this model says the    *)
+(* defect strikes, and every other failure is a violation.                    *)
+(*   - one visited set of single node identities, shared by both sides:       *)
+(*     `should_visit(l) && should_visit(r)` - a pair is skipped (= assumed    *)
+(*     equal) as soon as EITHER node was seen before, in any pairing;         *)
+(*   - boxes are compared without consulting the set at all;                  *)
+(*   - identical objects are equal without descending.                        *)
+AsIsInit(x, y) == [todo |-> << <<x, y>> >>, ids |-> {}, res |-> "run"]
+AsIsVisit(g, st, x, y, rest) ==
+  IF x = y THEN [st EXCEPT !.todo = rest]
+  ELSE IF g.k[x] # g.k[y] THEN [st EXCEPT !.res = "F"]
+  ELSE IF g.k[x] = "B"
+       THEN (IF LeafClash(g, x, y) THEN [st EXCEPT !.res = "F"]
+             ELSE [st EXCEPT !.todo = rest \o ChildPairs(g, x, y)])
+  ELSE IF x \in st.ids THEN [st EXCEPT !.todo = rest]
+  ELSE IF y \in st.ids THEN [st EXCEPT !.todo = rest, !.ids = @ \cup {x}]
+  ELSE IF LeafClash(g, x, y) THEN [st EXCEPT !.res = "F"]
+  ELSE [todo |-> rest \o ChildPairs(g, x, y), ids |-> st.ids \cup {x, y}, res |-> "run"]
+AsIsStep(g, st) == IF st.todo = << >> THEN [st EXCEPT !.res = "T"]
+                   ELSE AsIsVisit(g, st, Head(st.todo)[1], Head(st.todo)[2], Tail(st.todo))
+\* no measure: this machine need not terminate; it is run with fuel (a terminating run on <= 4 nodes
+\* visits each node at most once per side and each box pair ... far fewer than 200 steps)
+RECURSIVE AsIsRun(_, _, _)
+AsIsRun(g, st, fuel) == IF st.res # "run" THEN st.res ELSE IF fuel = 0 THEN "hang"
+                        ELSE AsIsRun(g, AsIsStep(g, st), fuel - 1)
+AsIsPredict(g, x, y, b) == IF AsIsRun(g, AsIsInit(x, y), 200) = "hang" THEN "hang"
+                           ELSE IF (AsIsRun(g, AsIsInit(x, y), 200) = "T") = b THEN "ok" ELSE "wrong"
+
+-----------------------------------------------------------------------------
 (* MACHINE Scan (printer pass 1): which nodes are reached more than once.     *)
 ScanInit(x) == [stack |-> <<x>>, seen |-> {}, multi |-> {}]
 ScanDone(st) == st.stack = << >>
@@ -426,7 +459,7 @@ SendSrc(inner) ==
   \o "(channel/send (channels-sender c2) (channel/recv (channels-receiver c1))))))) "
   \o "(channel/send (channels-sender c1) c18x@@) (let ((r (channel/recv (channels-receiver c2)))) (thread-join! t) "
   \o inner \o "))"
-AllocLoop == "(let loop ((i 0) (acc '())) (if (< i 5000) (loop (+ i 1) (cons (box i) acc)) (length acc)))"
+AllocLoop == "(let loop ((i 0) (acc '())) (if (< i 20000) (loop (+ i 1) (cons (box i) acc)) (length acc)))"
 
 Op(name, tag, steps) == [op |-> name, tag |-> tag, steps |-> steps]
 SingleOps(f, g) ==
@@ -445,11 +478,11 @@ SingleOps(f, g) ==
      Op("collect", Tag(f, g, "collect", <<1>>, ""),
         <<Step("(begin (#%gc-collect) " \o FpSrc(g, 1, "c18x@@") \o ")", "ok", <<FpExp(g, 1)>>, NoVal)>>),
      Op("drop",    Tag(f, g, "drop", <<1>>, ""),
-        <<Step("(begin (set! c18x@@ 0) (#%gc-collect) " \o AllocLoop \o ")", "ok", NoEmit, "5000")>>),
-     Op("equal",   Tag(f, g, "equal", <<1, 1>>, "|bisim=T|same=T"),
+        <<Step("(begin (set! c18x@@ 0) " \o AllocLoop \o ")", "ok", NoEmit, "20000")>>),
+     Op("equal",   Tag(f, g, "equal", <<1, 1>>, "|bisim=T|same=T|asis=" \o AsIsPredict(g, 1, 1, TRUE)),
         <<Step("(equal? c18x@@ c18x@@)", "ok", NoEmit, "#true")>>) >>
 PairOps(f, g, x, y, b) ==
-  << Op("equal", Tag(f, g, "equal", <<x, y>>, "|bisim=" \o B2S(b) \o "|same=F"),
+  << Op("equal", Tag(f, g, "equal", <<x, y>>, "|bisim=" \o B2S(b) \o "|same=F|asis=" \o AsIsPredict(g, x, y, b)),
         <<Step("(equal? c18x@@ c18y@@)", "ok", NoEmit, IF b THEN "#true" ELSE "#false")>>) >>
   \o (IF b THEN << Op("hashfind", Tag(f, g, "hashfind", <<x, y>>, "|bisim=T|same=F"),
                       <<Step("(hash-contains? (hash c18x@@ 1) c18y@@)", "ok", NoEmit, "#true")>>) >>
@@ -514,12 +547,22 @@ DeepOpNames == <<"create", "equal", "equalm", "hash", "write", "display", "send"
 SrcExpr(sh, d, b) == "@SRC:" \o ToString(d) \o ":" \o b \o ":" \o sh.src \o "@END"
 ValExpr(sh, d, b) == IF sh.src = "" THEN "(c18mk@@ " \o ToString(d) \o " " \o b \o ")" ELSE SrcExpr(sh, d, b)
 \* walk to the bottom: d steps of `down`, with a loop
+\* Where Steel has a predicate for the kind, the walk COUNTS the levels it really finds (a value that
+\* silently lost levels must not pass); boxes, closures and streams have none: d steps, no count.
+Pred(name) == CASE name \in {"car", "reccar", "srcquote", "srcqq", "srcapp"} -> "(list? v)"
+                [] name = "cdr" -> "(pair? v)"
+                [] name \in {"ivec", "mvec", "srcvec"} -> "(vector? v)"
+                [] name \in {"hashv", "hashk"} -> "(hash? v)"
+                [] name = "struct" -> "(c18d@@? v)"
+                [] OTHER -> ""
 Walk(sh, d, var) ==
   IF sh.name = "srclet" THEN var
   ELSE IF sh.name = "widevec" THEN "(vector-ref " \o var \o " " \o ToString(d) \o ")"
   ELSE IF sh.name = "widehash" THEN "(+ (hash-ref " \o var \o " 'bot) (- (hash-length " \o var \o ") " \o ToString(d + 1) \o "))"
   ELSE IF sh.name \in {"list", "rec"} THEN "(car (let loop ((i 0) (v " \o var \o ")) (if (< i " \o ToString(d) \o ") (loop (+ i 1) " \o sh.down \o ") v)))"
+  ELSE IF Pred(sh.name) # "" THEN "(let loop ((i 0) (v " \o var \o ")) (if " \o Pred(sh.name) \o " (loop (+ i 1) " \o sh.down \o ") (list i v)))"
   ELSE "(let loop ((i 0) (v " \o var \o ")) (if (< i " \o ToString(d) \o ") (loop (+ i 1) " \o sh.down \o ") v))"
+WalkExp(sh, d) == IF Pred(sh.name) # "" THEN "(" \o ToString(d) \o " 0)" ELSE "0"
 \* length of (write v) for the flat shapes whose text is determined: list of d zeros and the
 \* bottom: "(0 0 ... 0 b)"; vector likewise with "#("
 WLen(sh, d) == IF sh.name \in {"list", "rec"} THEN 2 * (d + 1) + 1
@@ -541,7 +584,7 @@ SendDeep(inner) ==
   \o "(channel/send (channels-sender c1) c18v@@) (let ((r (channel/recv (channels-receiver c2)))) (thread-join! t) "
   \o inner \o "))"
 DeepOpSteps(op, sh, d) ==
-  CASE op = "create"  -> <<Step(Walk(sh, d, "c18v@@"), "noncrash", NoEmit, "0")>>
+  CASE op = "create"  -> <<Step(Walk(sh, d, "c18v@@"), "noncrash", NoEmit, WalkExp(sh, d))>>
     [] op = "equal"   -> <<Step("(begin (set! c18w@@ " \o ValExpr(sh, d, "0") \o ") 0)", "noncrash", NoEmit, "0"),
                            Step("(equal? c18v@@ c18w@@)", "noncrash", NoEmit, IF sh.eqcopy THEN "#true" ELSE NoVal)>>
     [] op = "equalm"  -> <<Step("(begin (set! c18w@@ " \o ValExpr(sh, d, "1") \o ") 0)", "noncrash", NoEmit, "0"),
@@ -552,9 +595,9 @@ DeepOpSteps(op, sh, d) ==
                          ELSE <<Step("(hash-ref (hash c18v@@ 7) c18v@@)", "noncrash", NoEmit, "7")>>
     [] op = "write"   -> <<PrintStep(sh, d, "write")>>
     [] op = "display" -> <<PrintStep(sh, d, "display")>>
-    [] op = "send"    -> <<Step(SendDeep(Walk(sh, d, "r")), "noncrash", NoEmit, "0")>>
-    [] op = "collect" -> <<Step("(begin (#%gc-collect) " \o Walk(sh, d, "c18v@@") \o ")", "noncrash", NoEmit, "0")>>
-    [] op = "drop"    -> <<Step("(begin (set! c18v@@ 0) (#%gc-collect) " \o AllocLoop \o ")", "noncrash", NoEmit, "5000")>>
+    [] op = "send"    -> <<Step(SendDeep(Walk(sh, d, "r")), "noncrash", NoEmit, WalkExp(sh, d))>>
+    [] op = "collect" -> <<Step("(begin (#%gc-collect) " \o Walk(sh, d, "c18v@@") \o ")", "noncrash", NoEmit, WalkExp(sh, d))>>
+    [] op = "drop"    -> <<Step("(begin (set! c18v@@ 0) " \o AllocLoop \o ")", "noncrash", NoEmit, "20000")>>
 MinOf(a, b) == IF a < b THEN a ELSE b
 DeepDepths(sh) == {MinOf(d, Cap(sh.name)) : d \in DEPTHS \cup (IF sh.flat THEN BIGDEPTHS ELSE {})}
 DeepCombos == UNION {{<<o, s, d>> : o \in 1..Len(DeepOpNames), d \in DeepDepths(DeepShapes[s])} : s \in 1..Len(DeepShapes)}
